@@ -450,6 +450,10 @@ func c19Specs(tier string) []*clustermc.Spec {
 	same, diff := c19KeyPair([]string{"data", "ta"})
 	cfs = append(cfs, cf{102, 2, "EO", grid[0], keysFor["ab"]}, cf{102, 2, "CC", grid[1], keysFor["x"]},
 		cf{102, 2, "EN", []string{"data", "ta"}, [][]string{{same, diff}, {same, diff}}})
+	// DMap names and keys that are protocol keywords (the member-local and replica flags of the internal
+	// commands, option names of DM.PUT), through the wire paths
+	kw := [][]string{{"NX", "k"}, {"NX", "k"}}
+	cfs = append(cfs, cf{2, 2, "CC", []string{"LC", "RC"}, kw}, cf{102, 2, "RN", []string{"LC", "RC"}, kw})
 	// populated, then a join whose hand-over has not started (n >= 200 marks the configuration)
 	cfs = append(cfs, cf{201, 1, "EO", grid[0], keysFor["ab"]}, cf{202, 2, "EO", grid[0], keysFor["ab"]})
 	var out []*clustermc.Spec
